@@ -112,7 +112,8 @@ func (c *dupSubExprChecker) makesNewValue(expr ast.Expr) bool {
 
 func (c *dupSubExprChecker) resultIsFloat(expr ast.Expr) bool {
 	typ, ok := c.ctx.TypeOf(expr).Underlying().(*types.Basic)
-	return ok && typ.Info()&types.IsFloat != 0
+	// Complex numbers have NaN parts as well: x != x is the NaN test for them, too.
+	return ok && typ.Info()&(types.IsFloat|types.IsComplex) != 0
 }
 
 func (c *dupSubExprChecker) warn(cause *ast.BinaryExpr) {
